@@ -44,6 +44,8 @@ CFML = '''
        Magnetic_Form(  4) = Magnetic_Form_Type("MMN3", (/ 0.12, 1.12, 0.22, 2.22, 0.32, 3.32, 0.42/) )
        Magnetic_Form(  5) = Magnetic_Form_Type("MMO1", (/ 0.13, 1.13, 0.23, 2.23, 0.33, 3.33, 0.43/) )
        Magnetic_Form(  6) = Magnetic_Form_Type("MY0 ", (/ 0.14, 1.14, 0.24, 2.24, 0.34, 3.34, 0.44/) )
+       Magnetic_Form(  7) = Magnetic_Form_Type("MO1 ", (/ 0.101, 1.101, 0.201, 2.201, 0.301, 3.301, 0.401/) )
+       Magnetic_Form(  8) = Magnetic_Form_Type("JO1 ", (/ 0.102, 1.102, 0.202, 2.202, 0.302, 3.302, 0.402/) )
        Magnetic_j2(  1) = Magnetic_Form_Type("FE2 ",(/ 0.15, 1.15, 0.25, 2.25, 0.35, 3.35, 0.45/))
        Magnetic_j4(  1) = Magnetic_Form_Type("V2  ",(/ 0.16, 1.16, 0.26, 2.26, 0.36, 3.36, 0.46/))
        Magnetic_j6(  1) = Magnetic_Form_Type("MN3 ",(/ 0.17, 1.17, 0.27, 2.27, 0.37, 3.37, 0.47/))
@@ -245,7 +247,9 @@ def _magnetic(ctx, F):
             ("V", 2): {"j0": (0.11, 1.11, 0.21, 2.21, 0.31, 3.31, 0.41), "j4": (0.16, 1.16, 0.26, 2.26, 0.36, 3.36, 0.46)},
             ("Mn", 3): {"j0": (0.12, 1.12, 0.22, 2.22, 0.32, 3.32, 0.42), "j6": (0.17, 1.17, 0.27, 2.27, 0.37, 3.37, 0.47)},
             ("Mo", 1): {"j0": (0.13, 1.13, 0.23, 2.23, 0.33, 3.33, 0.43), "j2": (0.18, 1.18, 0.28, 2.28, 0.38, 3.38, 0.48)},
-            ("Y", 0): {"j0": (0.14, 1.14, 0.24, 2.24, 0.34, 3.34, 0.44)}}
+            ("Y", 0): {"j0": (0.14, 1.14, 0.24, 2.24, 0.34, 3.34, 0.44)},
+            # "MO1" in the <j0>/J table is prefix M + oxygen 1+, "MMO1" is prefix M + molybdenum 1+
+            ("O", 1): {"j0": (0.101, 1.101, 0.201, 2.201, 0.301, 3.301, 0.401), "J": (0.102, 1.102, 0.202, 2.202, 0.302, 3.302, 0.402)}}
     served = {}
     for z in range(0, 119):
         e = I.lib.subscript(I, T, sp.Integer(z))
